@@ -189,6 +189,8 @@ def Touch.needs (t : Touch) : List Nat := t.subj.objs ++ PV.objsL t.args
 
 /-- the observable history of one connection -/
 inductive Ev where
+  /-- `_dispatch_request(seq, …)` starts -/
+  | request (seq : Val)
   | touch (t : Touch)
   | answer (a : Ans)
   /-- the environment's callee asks for a synchronous request with these arguments -/
@@ -246,9 +248,6 @@ structure St where
   closed : Bool := false
   clock : Nat := 0
   log : List Ev := []
-  nReq : Nat := 0
-  nResp : Nat := 0
-  nAbort : Nat := 0
   deriving Repr, Inhabited
 
 /-- a well-framed message: its payload decodes to a value, or fails to decode with `e` -/
@@ -468,6 +467,15 @@ def tableRemove (tbl : List Slot) (key : Val) : List Slot := tbl.filter (fun s =
 def tableSet (tbl : List Slot) (key : Val) (n : Int) : List Slot :=
   tbl.map (fun s => if pyEq key s.key then { s with cnt := n } else s)
 
+/-- `self._local_objects[key]` -/
+def tableGet (key : Val) : M Nat := fun _ st fut =>
+  match lookupSlot st.table key with
+  | some s => ⟨.ok s.o, st, fut⟩
+  | none => ⟨.error (Exc.ofErr .keyError), st, fut⟩
+
+/-- `self._local_objects.add(key, obj)` -/
+def addSlot (key : Val) (o : Nat) : M Unit := modify (fun st => { st with table := tableAdd st.table key o })
+
 /-- write one frame: fails with `EOFError` on a closed connection -/
 def sendFrame (e : Ev) : M Unit := fun _ st fut =>
   if st.closed then ⟨.error eofExc, st, fut⟩
@@ -509,7 +517,7 @@ def box : Nat → Nat → PV → M Val
     let k ← settle n f
     match k with
     | .imm key => do
-      modify (fun st => { st with table := tableAdd st.table key o })
+      addSlot key o
       pure (.tuple [.int Gen.Handlers.labelRemoteRef, key])
     | _ => throwE .notModelled
 
@@ -581,10 +589,8 @@ def unbox : Nat → Val → M PV
       let xs ← inGenerator (unboxL f items)
       pure (mkTuple xs)
     else if pyEqNat label Gen.Handlers.labelLocalRef then do
-      let st ← getSt
-      match lookupSlot st.table value with
-      | some s => pure (.obj s.o)
-      | none => throwE .keyError
+      let o ← tableGet value
+      pure (.obj o)
     else if pyEqNat label Gen.Handlers.labelRemoteRef then do
       let v0 ← liftE (indexVal value 0)
       let v1 ← liftE (indexVal value 1)
@@ -796,11 +802,7 @@ def hCallattr : List PV → M PV
 /-- `self._local_objects[id_pack]` for an argument that need not be plain -/
 def lookupPV (x : PV) : M Nat :=
   match x with
-  | .imm v => do
-    let st ← getSt
-    match lookupSlot st.table v with
-    | some s => pure s.o
-    | none => throwE .keyError
+  | .imm v => tableGet v
   | other => do
     hashKey other
     throwE .keyError
@@ -937,9 +939,8 @@ def handleRequest (raw : Val) : M PV := do
   runHandler name xs
 
 def sendExc (seq : Val) (x : Exc) : M Unit := fun _ st fut =>
-  if st.closed then
-    ⟨.error eofExc, { st with nAbort := st.nAbort + 1, log := st.log ++ [.aborted seq eofExc.cls] }, fut⟩
-  else ⟨.ok (), { st with nResp := st.nResp + 1, log := st.log ++ [.exc seq x.cls] }, fut⟩
+  if st.closed then ⟨.error eofExc, { st with log := st.log ++ [.aborted seq eofExc.cls] }, fut⟩
+  else ⟨.ok (), { st with log := st.log ++ [.exc seq x.cls] }, fut⟩
 
 def encodable (v : Val) : Except Err Unit :=
   match Brine.dump v with
@@ -950,24 +951,23 @@ def encodable (v : Val) : Except Err Unit :=
 def sendResult (seq : Val) (res : PV) : M Unit := fun c st fut =>
   match boxTop res c st fut with
   | ⟨.error x, st1, fut1⟩ =>
-    if x.eof || !x.isException then
-      ⟨.error x, { st1 with nAbort := st1.nAbort + 1, log := st1.log ++ [.aborted seq x.cls] }, fut1⟩
+    if x.eof || !x.isException then ⟨.error x, { st1 with log := st1.log ++ [.aborted seq x.cls] }, fut1⟩
     else sendExc seq x c st1 fut1
   | ⟨.ok b, st1, fut1⟩ =>
     match encodable b with
     | .error e => sendExc seq (Exc.ofErr e) c st1 fut1
     | .ok _ =>
-      if st1.closed then
-        ⟨.error eofExc, { st1 with nAbort := st1.nAbort + 1, log := st1.log ++ [.aborted seq eofExc.cls] }, fut1⟩
-      else ⟨.ok (), { st1 with nResp := st1.nResp + 1, log := st1.log ++ [.reply seq b] }, fut1⟩
+      if st1.closed then ⟨.error eofExc, { st1 with log := st1.log ++ [.aborted seq eofExc.cls] }, fut1⟩
+      else ⟨.ok (), { st1 with log := st1.log ++ [.reply seq b] }, fut1⟩
 
-/-- `_dispatch_request(seq, raw_args)` -/
+/-- `_dispatch_request(seq, raw_args)`: exactly one of reply / exception reply / abort (the exception is re-raised in
+the serving thread, or nothing can be written any more) -/
 def dispatchRequest (seq raw : Val) : M Unit := fun c st fut =>
-  match handleRequest raw c { st with nReq := st.nReq + 1 } fut with
+  match handleRequest raw c { st with log := st.log ++ [.request seq] } fut with
   | ⟨.ok res, st1, fut1⟩ => sendResult seq res c st1 fut1
   | ⟨.error x, st1, fut1⟩ =>
     if (x.sysExit && c.cfg.propagateSysExit) || (x.kbdInt && c.cfg.propagateKbdInt) then
-      ⟨.error x, { st1 with nAbort := st1.nAbort + 1, log := st1.log ++ [.aborted seq x.cls] }, fut1⟩
+      ⟨.error x, { st1 with log := st1.log ++ [.aborted seq x.cls] }, fut1⟩
     else sendExc seq x c st1 fut1
 
 /-- `_seq_request_callback`: pop the callback; an expired `AsyncResult` drops what it is given -/
